@@ -480,6 +480,20 @@ def _main(args, prop, cfg, tier, seed0, t0, scratch):
             continue
         res2, crashed2, err2, dec2 = replay_once(binpath, scratch, rf)
         if cls not in classes_of(res2, crashed2, err2):
+            if is_tierb(leg):
+                # Tier B (third-party goroutines on the real clock): the workload replays, the interleaving
+                # does not. The violation was observed by a data-only oracle; report it with its replay
+                # agreement instead of pretending the simulator is at fault.
+                agree = 0
+                for _ in range(4):
+                    res2, crashed2, err2, dec2 = replay_once(binpath, scratch, rf)
+                    if cls in classes_of(res2, crashed2, err2):
+                        agree += 1
+                rf["tier_b_replay_agreement"] = "%d/5" % agree
+                rf["note"] = "Tier B leg: the decision list replays the workload; the violation recurred in %d of 5 replays" % agree
+                json.dump(rf, open(dst, "w"))
+                out_replays.append((leg, cls, dst, v, len(items)))
+                continue
             nondeterministic.append((leg, cls, r["seed"]))
             json.dump(rf, open(dst + ".nonrepro", "w"))
             continue
